@@ -106,7 +106,16 @@ func randGFF(r *rand.Rand, L int) *gffRecord {
 		}
 		keys := []string{"ID", "Name", "Parent", "Dbxref", "Note", "gbkey", "gene", "locus_tag", "product", "Alias"}
 		for _, k := range r.Perm(len(keys))[:1+r.Intn(6)] {
-			f.Attrs[keys[k]] = gffText(r, 4)
+			v := gffText(r, 4)
+			switch r.Intn(10) { // blanks at the ends of a value belong to the value
+			case 0:
+				v += " "
+			case 1:
+				v += "  "
+			case 2:
+				v = " " + v
+			}
+			f.Attrs[keys[k]] = v
 		}
 		rec.Feats = append(rec.Feats, f)
 	}
